@@ -12,7 +12,14 @@ from core import Result, call, parallel_map
 from gen import g1
 from corr.c01 import component_sizes
 
-FAULTS = ["ok", "raises", "notsolved", "infeasible", "unbounded", "undefined"]
+FAULTS = ["ok", "raises", "notsolved", "infeasible", "unbounded", "undefined",
+          # a solver error without / with an empty / with a multi-line message
+          "raises-noargs", "raises-empty", "raises-multiline",
+          # the solver stops early: status "not solved" / "undefined" but an integer-feasible incumbent is left in the
+          # variables (sol_status = IntegerFeasible) — not an optimal solution, so the result must be FCFS
+          "incumbent-notsolved", "incumbent-undefined"]
+RAISES = {"raises": ("injected",), "raises-noargs": (), "raises-empty": ("",), "raises-multiline": ("first line\nsecond line",)}
+INCUMBENT = {"incumbent-notsolved": pulp.LpStatusNotSolved, "incumbent-undefined": pulp.LpStatusUndefined}
 STATUS = {"notsolved": pulp.LpStatusNotSolved, "infeasible": pulp.LpStatusInfeasible,
           "unbounded": pulp.LpStatusUnbounded, "undefined": pulp.LpStatusUndefined}
 
@@ -31,8 +38,12 @@ class Spy(pulp.LpSolver):
 
     def actualSolve(self, lp, **kw):
         self.called += 1
-        if self.fault == "raises":
-            raise pulp.PulpSolverError("injected")
+        if self.fault in RAISES:
+            raise pulp.PulpSolverError(*RAISES[self.fault])
+        if self.fault in INCUMBENT:
+            pulp.PULP_CBC_CMD(msg=False).actualSolve(lp)          # leaves a feasible assignment in the variables
+            lp.assignStatus(INCUMBENT[self.fault], pulp.LpSolutionIntegerFeasible)
+            return INCUMBENT[self.fault]
         if self.fault in STATUS:
             lp.assignStatus(STATUS[self.fault])
             return STATUS[self.fault]
@@ -117,7 +128,7 @@ def run(ctx):
                 outcome, ones = "notopt", "-"  # solver never consulted (no crossing or no solver): outcome irrelevant
             else:
                 outcome, ones = "optimal", ",".join("%d_%d" % p for p in o["ones"]) or "-"
-        elif fault == "raises":
+        elif fault in RAISES:
             outcome, ones = "raises", "-"
         else:
             outcome, ones = "notopt", "-"
